@@ -2,7 +2,7 @@
 //@ assume: T6 rewrites: the two `let x = &mut ext.field;` re-borrows are folded into their uses (`extension.` => `ext.extension.`, `header_extension` => `ext.header_extension`); `&dyn Fn(..)` => `&Allowed`; `.map_err(..)?` => `?`; `vec![]` => Vec::new(); `fork_hashes.reverse()` => reversal helper; `for h in fork_hashes {` => Verus iterator loop; lifetimes dropped
 //@ assume: termination of the two walks is NOT proved (depends on stored heights decreasing along prev links): exec_allows_no_decreases_clause
 //@ assume: decided here: pipe::rewind_and_apply_fork (the "on every fork" machinery of C02/C03/C06) first prepares the header MMR for the fork (contract of rewind_and_apply_header_fork, verified in the same file), rewinds the txhashset extension to the first ancestor of the CURRENT HEAD that is on that header chain, and then re-applies EXACTLY the stored blocks on the path from that fork point (exclusive) to `header` (inclusive), oldest first, each one only after coinbase maturity, UTXO validation and block sums were re-verified on this fork; it returns that fork point
-//@ assumed_items: 8
+//@ assumed_items: 11
 //@ fns: pipe::rewind_and_apply_fork
 //@ include: header_fork.verus.rs
 
@@ -17,7 +17,16 @@ impl Batch {
     pub fn head_header(&self) -> (r: Result<BlockHeader, Error>) ensures r matches Ok(h) ==> h == self.sp_head_header() { unimplemented!() }
     #[verifier::external_body]
     pub fn get_block(&self, id: &Hash) -> (r: Result<Block, Error>) ensures r matches Ok(b) ==> b == sp_stored_block(*id) { unimplemented!() }
+    /// offered (not used by the pinned text): the body tail and the body head as tips -- a variant that bounds the walk by them is then DECIDED
+    #[verifier::external_body]
+    pub fn tail(&self) -> (r: Result<Tip, Error>) { unimplemented!() }
+    #[verifier::external_body]
+    pub fn head(&self) -> (r: Result<Tip, Error>) { unimplemented!() }
 }
+pub assume_specification<T, E>[ Result::<T, E>::unwrap_or ](this: Result<T, E>, default: T) -> (r: T)
+    ensures (this matches Ok(v) ==> r == v), (this is Err ==> r == default);
+#[derive(Clone, Copy)]
+pub struct Tip { pub height: u64, pub last_block_h: Hash, pub prev_block_h: Hash }
 pub struct Extension { pub rewound_to: Ghost<Option<BlockHeader>>, pub applied: Ghost<Seq<Block>> }
 impl Extension {
     #[verifier::external_body]
